@@ -18,8 +18,9 @@ ASSUME = [
 
 
 def plan(tier):
-    q = [{"h": "heap_weak_collection_step", "sym": "reachable[3], value[3], held[3], cursor"}]
-    t = [{"h": "heap_allocate_step", "sym": "reachable[3], value[3], held[3], cursor, v: u8"}]
+    q = [{"h": "heap_weak_collection_step", "sym": "reachable[3], value[3], held[3], cursor"},
+         {"h": "heap_allocate_step", "sym": "reachable[3], value[3], held[3], cursor, v: u8"}]
+    t = [{"h": "heap_reset_and_recount_step", "sym": "pre-state + marked[3]"}]
     return q + (t if tier == "thorough" else [])
 
 
